@@ -49,7 +49,7 @@ def gen_cases(ctx):
         for en in range(0, 17):
             n += 1
             yield {"id": f"tanh-{n}", "kind": "tanh", **_beta_fields(b), "en": en, "eden": 16, "xden": 32, "xs": table}
-    for k in range(40 if quick else 600):
+    for k in range(40 if quick else 300):
         b = rng.choice(betas)
         xs = sorted(rng.randint(-256, 1280) for _ in range(rng.randint(2, 40))) + [0, 1024]
         yield {"id": f"tanh-rnd-{k}", "kind": "tanh", **_beta_fields(b), "en": rng.randint(0, 64), "eden": 64, "xden": 1024, "xs": sorted(xs)}
@@ -60,11 +60,11 @@ def gen_cases(ctx):
         fields.append((nx, ny, "rampx", [min(16, (16 * i) // max(1, nx - 1)) for i in range(nx) for j in range(ny)]))
         fields.append((nx, ny, "rampy", [min(16, 2 * j + 3) for i in range(nx) for j in range(ny)]))
         fields.append((nx, ny, "blob", [max(0, 16 - 3 * (abs(2 * i - nx + 1) + abs(2 * j - ny + 1))) for i in range(nx) for j in range(ny)]))
-        for r in range(2 if quick else 12):
+        for r in range(2 if quick else 5):
             fields.append((nx, ny, f"rnd{r}", [rng.randint(0, 16) for _ in range(nx * ny)]))
     m = 0
     for nx, ny, name, rho in fields:
-        for b in (betas if not quick else [betas[0], betas[3], betas[5], betas[7], betas[9]]):
+        for b in ([betas[i] for i in (0, 1, 3, 5, 7, 9, 12, 17)] if not quick else [betas[0], betas[3], betas[5], betas[7], betas[9]]):
             for en in ([0, 5, 8, 16] if quick else [0, 1, 5, 8, 12, 16]):
                 m += 1
                 yield {"id": f"smooth-{name}-{nx}x{ny}-{m}", "kind": "smooth", **_beta_fields(b), "en": en, "rden": 16, "shape": [nx, ny], "rho": rho,
